@@ -1,13 +1,14 @@
 SPECIFICATION MCSpec
 CONSTANTS
   GroupIds = {"g1"}
-  StreamSet = {"sa", "sb"}
+  StreamSet = {"sa"}
   MaxParts = 1
   Brokers = {"r1", "r2", "r3"}
-  ConsumerSet = {"c1"}
+  ConsumerSet = {"c1", "c2"}
   Coords = {"A"}
-  OpKinds = {"CreateStream", "DeleteStream", "CreateGroup", "LeaveGroup"}
-  MaxOps = 3
+  OpKinds = {"CreateStream", "DeleteStream", "CreateGroup", "JoinGroup", "LeaveGroup"}
+  Variants = {"custom"}
+  MaxOps = 4
   MaxSnaps = 1
   MaxRestarts = 1
 CHECK_DEADLOCK FALSE
